@@ -85,6 +85,24 @@ fn htlc_json(hashes: &Arc<Mutex<Vec<[u8; 32]>>>, h: &HtlcInfo) -> Value {
 }
 
 /// C12: write / read-back checks performed on every persisted monitor and update.
+/// records what the output sweeper broadcasts (kept apart from the nodes' own broadcasters)
+#[derive(Default)]
+struct SweepBroadcaster { txs: Mutex<Vec<bitcoin::Transaction>> }
+impl lightning::chain::chaininterface::BroadcasterInterface for SweepBroadcaster {
+	fn broadcast_transactions(&self, txs: &[(&bitcoin::Transaction, lightning::chain::chaininterface::TransactionType)]) {
+		for (t, _) in txs { self.txs.lock().unwrap().push((*t).clone()); }
+	}
+}
+struct SweepWallet;
+impl lightning::sign::ChangeDestinationSourceSync for SweepWallet {
+	fn get_change_destination_script(&self) -> Result<bitcoin::ScriptBuf, ()> {
+		Ok(bitcoin::ScriptBuf::new_p2wsh(&bitcoin::WScriptHash::all_zeros()))
+	}
+}
+type Sweeper = lightning::util::sweep::OutputSweeperSync<&'static SweepBroadcaster, &'static SweepWallet, &'static lightning::util::test_utils::TestFeeEstimator,
+	&'static lightning::util::test_utils::TestChainSource, &'static lightning::util::test_utils::TestStore, &'static lightning::util::test_utils::TestLogger,
+	&'static lightning::util::dyn_signer::DynKeysInterface>;
+
 struct NullBroadcaster;
 impl lightning::chain::chaininterface::BroadcasterInterface for NullBroadcaster {
 	fn broadcast_transactions(&self, _txs: &[(&bitcoin::Transaction, lightning::chain::chaininterface::TransactionType)]) {}
@@ -323,6 +341,9 @@ struct Net {
 	/// while the chain is being settled block by block, routine records (manager snapshots, re-persists
 	/// that carry no update, empty blocks) are not logged
 	settling: bool,
+	/// per node: the application's OutputSweeper (created at its first SpendableOutputs event), with the
+	/// broadcaster and the store it uses
+	sweepers: Vec<Option<(&'static Sweeper, &'static SweepBroadcaster, &'static lightning::util::test_utils::TestStore)>>,
 	mempool: Vec<(bitcoin::Transaction, String)>,
 	spent: HashSet<bitcoin::OutPoint>,
 	confirmed: HashSet<bitcoin::Txid>,
@@ -427,6 +448,10 @@ impl Net {
 		for i in 0..n {
 			let block = create_dummy_block(self.nodes[i].best_block_hash(), newh, txs.clone());
 			connect_block(&self.nodes[i], &block);
+			if let Some((sw, _, _)) = self.sweepers[i] {
+				use lightning::chain::Listen;
+				if sw.current_best_block().height + 1 == newh { sw.block_connected(&block, newh); }
+			}
 		}
 		if std::env::var("VERIF_DBG").is_ok() {
 			for i in 0..n { let a = self.nodes[i].best_block_info().1; let b = self.nodes[i].blocks.lock().unwrap().last().unwrap().1; let c = self.nodes[i].tx_broadcaster.blocks.lock().unwrap().last().unwrap().1; self.ev(json!({"ev":"dbg","node":i,"best":a,"blocks":b,"bc":c})); }
@@ -704,8 +729,20 @@ impl Net {
 				self.extra_funding.push(tx);
 				self.ev(json!({"ev":"event","node":i,"kind":"FundingGenerationReady","ok":ok}));
 			},
-			Event::SpendableOutputs { outputs, .. } => {
+			Event::SpendableOutputs { outputs, channel_id, .. } => {
 				self.ev(json!({"ev":"event","node":i,"kind":"SpendableOutputs","n":outputs.len()}));
+				// the application hands them to its OutputSweeper (C12: that object survives serialization too)
+				if self.sweepers[i].is_none() {
+					let bc: &'static SweepBroadcaster = leak(SweepBroadcaster::default());
+					let st: &'static lightning::util::test_utils::TestStore = leak(lightning::util::test_utils::TestStore::new(false));
+					let best = self.nodes[i].node.current_best_block();
+					let sw: &'static Sweeper = leak(lightning::util::sweep::OutputSweeperSync::new(best, bc, self.nodes[i].fee_estimator, None, &self.nodes[i].keys_manager.backing,
+						leak(SweepWallet), st, self.nodes[i].logger));
+					self.sweepers[i] = Some((sw, bc, st));
+				}
+				let (sw, _, _) = self.sweepers[i].unwrap();
+				let ok = sw.track_spendable_outputs(outputs, channel_id, None, false, None).is_ok();
+				if !ok { self.ev(json!({"ev":"sweeper_track_failed","node":i})); }
 			},
 			Event::BumpTransaction(b) => {
 				self.ev(json!({"ev":"event","node":i,"kind":"BumpTransaction"}));
@@ -1153,7 +1190,7 @@ impl Net {
 					self.crash(i, name == "reload", back, op["mon"].as_str().unwrap_or("durable"), &by_chan, rng);
 				} else { did = false; }
 			},
-			"proj" => { let fin = op["final"].as_bool().unwrap_or(false); for i in 0..n { self.proj_ext(i, fin, false); } if fin { for i in 0..n { self.ev(json!({"ev":"fin","node":i})); } self.scorer_round_trip(); } },
+			"proj" => { let fin = op["final"].as_bool().unwrap_or(false); for i in 0..n { self.proj_ext(i, fin, false); } if fin { for i in 0..n { self.ev(json!({"ev":"fin","node":i})); } self.sweeper_round_trip(); self.scorer_round_trip(); } },
 			_ => { did = false; },
 		}
 		if did { self.executed += 1; } else { self.skipped += 1; let _ = before; }
@@ -1161,6 +1198,97 @@ impl Net {
 
 	/// C12: a ProbabilisticScorer fed with this run's payment paths is written and re-read; the copy
 	/// must re-encode to the same bytes and answer every liquidity query like the original.
+	/// C12: every node's OutputSweeper is read back from what it wrote to its store; the copy tracks the
+	/// same outputs and reacts to the blocks that follow (its own sweep confirming, burial, pruning) like
+	/// the original, also when it is written and re-read again half way.
+	fn sweeper_round_trip(&mut self) {
+		use lightning::chain::Listen;
+		use lightning::util::persist::{KVStoreSync, OUTPUT_SWEEPER_PERSISTENCE_KEY, OUTPUT_SWEEPER_PERSISTENCE_PRIMARY_NAMESPACE, OUTPUT_SWEEPER_PERSISTENCE_SECONDARY_NAMESPACE};
+		for i in 0..self.nodes.len() {
+			let (sw, bc, st) = match self.sweepers[i] { Some(x) => x, None => continue };
+			let node_fee = self.nodes[i].fee_estimator; let keys = &self.nodes[i].keys_manager.backing; let logger = self.nodes[i].logger;
+			let reread = |store: &'static lightning::util::test_utils::TestStore| -> Option<(&'static Sweeper, &'static SweepBroadcaster, &'static lightning::util::test_utils::TestStore)> {
+				let bytes = KVStoreSync::read(store, OUTPUT_SWEEPER_PERSISTENCE_PRIMARY_NAMESPACE, OUTPUT_SWEEPER_PERSISTENCE_SECONDARY_NAMESPACE, OUTPUT_SWEEPER_PERSISTENCE_KEY).ok()?;
+				let bc2: &'static SweepBroadcaster = leak(SweepBroadcaster::default());
+				let st2: &'static lightning::util::test_utils::TestStore = leak(lightning::util::test_utils::TestStore::new(false));
+				let mut r = &bytes[..];
+				let res = <(lightning::chain::BlockLocator, Sweeper) as ReadableArgs<_>>::read(&mut r, (bc2, node_fee, None, keys, leak(SweepWallet), st2, logger));
+				// truncated encodings are refused
+				if bytes.len() > 3 { let mut t = &bytes[..bytes.len() - 2]; if <(lightning::chain::BlockLocator, Sweeper) as ReadableArgs<_>>::read(&mut t, (bc2, node_fee, None, keys, leak(SweepWallet), leak(lightning::util::test_utils::TestStore::new(false)), logger)).is_ok() { return None; } }
+				match res { Ok((_, s2)) if r.is_empty() => Some((leak(s2), bc2, st2)), _ => None }
+			};
+			// what is written is as of the sweeper's last change; the application replays the blocks since then
+			let chain: Vec<(bitcoin::Block, u32)> = self.nodes[i].blocks.lock().unwrap().clone();
+			let catch_up = |c: &'static Sweeper, upto: u32| {
+				for (b, h) in chain.iter() { if *h > c.current_best_block().height && *h <= upto { c.block_connected(b, *h); } }
+			};
+			let n_out = sw.tracked_spendable_outputs().len();
+			let mut copies = Vec::new();
+			let mut read_ok = true;
+			match reread(st) { Some(c) => { catch_up(c.0, sw.current_best_block().height); copies.push(c) }, None => read_ok = false }
+			let mut equal = true;
+			let mut steps = 0;
+			let mut why: Vec<String> = Vec::new();
+			if read_ok {
+				// (signatures are made with fresh auxiliary randomness: spending transactions are compared by txid)
+				// (... and modulo the order of their inputs, which the sweeper randomises on purpose)
+				let txsig = |t: &bitcoin::Transaction| -> String {
+					let mut ins: Vec<String> = t.input.iter().map(|i| format!("{}:{}", i.previous_output.txid, i.previous_output.vout)).collect();
+					ins.sort();
+					format!("{} lt{} out{}", ins.join(","), t.lock_time, t.output.iter().map(|o| o.value.to_sat()).sum::<u64>())
+				};
+				let view = |x: &Sweeper| -> Vec<String> {
+					use lightning::util::sweep::OutputSpendStatus as St;
+					let mut v: Vec<String> = x.tracked_spendable_outputs().iter().map(|o| {
+						let st = match &o.status {
+							St::PendingInitialBroadcast { delayed_until_height } => format!("initial {:?}", delayed_until_height),
+							St::PendingFirstConfirmation { first_broadcast_hash, latest_broadcast_height, latest_spending_tx } =>
+								format!("first {} {} {}", first_broadcast_hash, latest_broadcast_height, txsig(latest_spending_tx)),
+							St::PendingThresholdConfirmations { first_broadcast_hash, latest_broadcast_height, latest_spending_tx, confirmation_height, confirmation_hash } =>
+								format!("threshold {} {} {} {} {}", first_broadcast_hash, latest_broadcast_height, txsig(latest_spending_tx), confirmation_height, confirmation_hash),
+						};
+						format!("{:?} {:?} {}", o.descriptor, o.channel_id, st)
+					}).collect();
+					v.sort();
+					v
+				};
+				let same = |a: &Sweeper, b: &Sweeper| view(a) == view(b) && a.current_best_block() == b.current_best_block();
+				if !same(sw, copies[0].0) { equal = false; why.push(format!("initial outs_eq={} best_eq={} a={:?} b={:?}", view(sw) == view(copies[0].0), sw.current_best_block() == copies[0].0.current_best_block(), sw.current_best_block().height, copies[0].0.current_best_block().height)); }
+				// blocks that only the sweepers see: first the sweep transaction(s) they have broadcast, then burial
+				let mut prev = sw.current_best_block();
+				let mut extra: Vec<(bitcoin::Block, u32)> = Vec::new();
+				for k in 0..12u32 {
+					let _ = sw.regenerate_and_broadcast_spend_if_necessary();
+					for c in copies.iter() { let _ = c.0.regenerate_and_broadcast_spend_if_necessary(); }
+					let mut txs: Vec<bitcoin::Transaction> = if k == 1 { bc.txs.lock().unwrap().clone() } else { Vec::new() };
+					txs.dedup_by_key(|t| t.compute_txid());
+					let mut seen = HashSet::new();
+					txs.retain(|t| t.input.iter().all(|i| seen.insert(i.previous_output)));
+					let block = create_dummy_block(prev.block_hash, 1_000_000 + k, txs);
+					let h = prev.height + 1;
+					sw.block_connected(&block, h);
+					for c in copies.iter() { c.0.block_connected(&block, h); }
+					extra.push((block.clone(), h));
+					prev = sw.current_best_block();
+					steps += 1;
+					for c in copies.iter() { if !same(sw, c.0) { equal = false; if why.len() < 3 { why.push(format!("step {} outs_eq={} best_eq={} A={:?} B={:?}", k, view(sw) == view(c.0), sw.current_best_block() == c.0.current_best_block(), view(sw), view(c.0)).chars().take(1500).collect()); } } }
+					// the copies broadcast what the original broadcasts
+					let n0 = bc.txs.lock().unwrap().iter().map(|t| txsig(t)).collect::<HashSet<_>>();
+					if k >= 1 { for c in copies.iter().take(1) { let n1 = c.1.txs.lock().unwrap().iter().map(|t| txsig(t)).collect::<HashSet<_>>(); if !n1.is_subset(&n0) { equal = false; if why.len() < 3 { why.push(format!("step {} copy broadcast something else", k)); } } } }
+					if k == 3 { match reread(st) {
+						Some(c) => {
+							catch_up(c.0, u32::MAX);
+							for (b, hh) in extra.iter() { if *hh > c.0.current_best_block().height { c.0.block_connected(b, *hh); } }
+							if !same(sw, c.0) { equal = false; }
+							copies.push(c)
+						},
+						None => read_ok = false } }
+				}
+			}
+			self.ev(json!({"ev":"rt_sweeper","node":i,"outputs":n_out,"read_ok":read_ok,"equal":equal,"steps":steps,"why":why}));
+		}
+	}
+
 	fn scorer_round_trip(&mut self) {
 		use lightning::routing::scoring::{ProbabilisticScorer, ProbabilisticScoringDecayParameters, ScoreUpdate};
 		use lightning::routing::gossip::NodeId;
@@ -1432,7 +1560,7 @@ fn build_net(run: u64, cfg: &Value, log: &Log) -> Net {
 	let mut net = Net {
 		nodes, cfgs, persisters, queues: HashMap::new(), connected, log: log.clone(), chans, hashes, points: Vec::new(),
 		pays: Vec::new(), scids, chan_ids, run, feerate: vec![feerate0; n], executed: 0, skipped: 0,
-		funding_txids: Vec::new(), extra_funding: Vec::new(), extra_broadcast: Vec::new(), mgr_snaps: vec![Vec::new(); n], mgr_clean: vec![Vec::new(); n], mgr_msgs: vec![Vec::new(); n], msgs_emitted: vec![0; n], mgr_evheld: vec![Vec::new(); n], mgr_writes: vec![Vec::new(); n], dirty: vec![HashSet::new(); n], mgr_held: vec![Vec::new(); n], reest_seen: HashSet::new(), hold_events: vec![false; n], hold_failed_only: vec![false; n], refused_logged: HashSet::new(), settling: false, mempool: Vec::new(), spent: HashSet::new(), confirmed: HashSet::new(), saved_idx: vec![None; n], node_cfgs, txids, edges: edges.clone(),
+		funding_txids: Vec::new(), extra_funding: Vec::new(), extra_broadcast: Vec::new(), mgr_snaps: vec![Vec::new(); n], mgr_clean: vec![Vec::new(); n], mgr_msgs: vec![Vec::new(); n], msgs_emitted: vec![0; n], mgr_evheld: vec![Vec::new(); n], mgr_writes: vec![Vec::new(); n], dirty: vec![HashSet::new(); n], mgr_held: vec![Vec::new(); n], reest_seen: HashSet::new(), hold_events: vec![false; n], hold_failed_only: vec![false; n], refused_logged: HashSet::new(), settling: false, sweepers: (0..n).map(|_| None).collect(), mempool: Vec::new(), spent: HashSet::new(), confirmed: HashSet::new(), saved_idx: vec![None; n], node_cfgs, txids, edges: edges.clone(),
 	};
 	for i in 0..n {
 		let _ = net.nodes[i].node.get_and_clear_needs_persistence();
